@@ -78,7 +78,8 @@ def run(ctx):
     return ctx.finish(
         rule="plans = TLC simulation of Session.tla (4 sessions, weighted actions, hold marks racing pairs) "
              "+ seeded random schedules (1..3 sessions, payloads 1..80 bytes, partial writes) on scripted "
-             "connections; loopback worlds: max 1..3 connections, up to 6 dials (single and bursts), ends by "
+             "connections (a third of them report an error from Close although they close; SetReadDeadline / "
+             "SetWriteDeadline fail on command); loopback worlds: max 1..3 connections, up to 6 dials (single and bursts), ends by "
              "Close / client close / poison frames / 30 ms read deadline; every fifth world fills the "
              "server and fires bursts of 8..12 and 3..6 simultaneous surplus dials (each must be closed; a "
              "connection neither admitted nor closed after 10 s with the process quiescent is recorded as "
